@@ -229,7 +229,7 @@ impl Property for P {
     }
     fn cases(tier: Tier) -> u64 {
         match tier {
-            Tier::Quick => 160,
+            Tier::Quick => 400,
             Tier::Thorough => 6_000,
         }
     }
@@ -250,6 +250,18 @@ impl Property for P {
     }
 
     fn run(case: &Case) -> Outcome {
+        let mut out = run_inner(case);
+        if crate::props::unsortable_format_with_cleanup(&case.cfg) {
+            if let Some(f) = out.fail.take() {
+                out.set_fail(crate::props::SIG_UNSORTABLE, format!("{}: {}", f.sig, f.msg));
+            }
+        }
+        out
+    }
+}
+
+fn run_inner(case: &Case) -> Outcome {
+    {
         let mut out = Outcome::ok();
         let sc = Scratch::new("c19");
         out.class(case.cfg.nam().map_or("nam:none", |n| n.label()));
